@@ -179,4 +179,817 @@ def gen_consts(repo):
     return s, 23 + 1
 
 
-GENERATORS = {"Signatures": gen_signatures, "C18Consts": gen_consts}
+
+# ---------------------------------------------------------------------------------------------------------
+# C18Bodies.lean - the per-method wire rules, EXTRACTED from the source
+#
+# An abstract interpretation of the body of every context-decorated method (and, inlined, of the
+# undecorated helpers and properties of the same class it uses): statements are walked in order with an
+# environment `local name -> abstract value`; every send (`self._send_scp(..)`, `connection.read/write(..)`
+# on a connection obtained from `self._get_connection(x, y)`) and every call of a decorated method is
+# recorded with its destination arguments classified in the `Ex` vocabulary of Model/C18Types.lean.
+# Anything that sends but cannot be classified becomes `Op.unknown "<why>"` (never dropped).
+
+DYN = ("dyn",)
+PRIMITIVES = ("_send_scp", "_get_connection")
+# property whose lazily issued probe is outside the wire rules (C07's subject; the harness presets the
+# cached value): its sends are emitted separately (`genLazy`) and pinned by an obligation of their own
+LAZY_PROPERTIES = ("scp_data_length",)
+ENUM_CLASSES = ("SCPCommands", "AllocOperations", "RouterOperations", "NNCommands", "AppSignal", "NNConstants",
+                "IPTagCommands", "AppDiagnosticSignal", "AppFlags", "BMPInfoType", "LEDAction", "AppState")
+
+
+class Unclassified(Exception):
+    pass
+
+
+def _is_self(node):
+    return isinstance(node, ast.Name) and node.id == "self"
+
+
+def _stored_names(nodes):
+    out = set()
+    for n in nodes:
+        for m in ast.walk(n):
+            if isinstance(m, ast.Name) and isinstance(m.ctx, (ast.Store, ast.Del)):
+                out.add(m.id)
+    return out
+
+
+def bit_terms(av):
+    """abstract value -> [(term, shift)] of an OR of shifted terms"""
+    if av[0] == "bits":
+        return list(av[1])
+    return [(av, 0)]
+
+
+def int_of(av):
+    if av[0] == "lit" and isinstance(av[1], int):
+        return int(av[1])
+    if av[0] == "enum":
+        return av[3]
+    return None
+
+
+class BodyScanner(object):
+    def __init__(self, cname, cls_node, decorated, kwonly, enums):
+        self.cname = cname
+        self.is_bmp = cname == "BMPController"
+        self.decorated = decorated                  # names of decorated methods
+        self.kwonly = kwonly                        # method -> names of the decorator's keyword-only arguments
+        self.enums = enums
+        self.methods, self.properties = {}, {}
+        for fn in cls_node.body:
+            if isinstance(fn, ast.FunctionDef):
+                if any(isinstance(d, ast.Name) and d.id == "property" for d in fn.decorator_list):
+                    self.properties[fn.name] = fn
+                elif fn.name not in self.methods:
+                    self.methods[fn.name] = fn
+        self.ops = self.deferred = None
+        self.lazy_used = set()
+        self.in_primitive = False
+        self.stack = []
+
+    # -- entry points -----------------------------------------------------------------------------------
+    def scan(self, name):
+        """(ops, deferred ops) of the decorated method `name`"""
+        fn = self.methods[name]
+        self.ops, self.deferred, self.stack = [], [], [name]
+        self.cur_kwonly = self.kwonly.get(name, [])
+        env = {}
+        a = fn.args
+        for x in list(a.posonlyargs) + list(a.args):
+            if x.arg != "self":
+                env[x.arg] = ("ref", x.arg)
+        self.kwarg_name = a.kwarg.arg if a.kwarg else None
+        if a.vararg:
+            env[a.vararg.arg] = DYN
+        if a.kwarg:
+            env[a.kwarg.arg] = ("kwargs",)
+        try:
+            self.block(fn.body, env)
+        except (Unclassified, NotImplementedError, RecursionError) as e:
+            self.ops.append(("unknown", "%s: %s" % (name, e)))
+        return self.ops, self.deferred
+
+    def scan_primitive(self):
+        """the body of `_send_scp` itself: which connection, and the destination handed to it"""
+        fn = self.methods["_send_scp"]
+        self.ops, self.deferred, self.stack = [], [], ["_send_scp"]
+        self.cur_kwonly, self.kwarg_name = [], None
+        env = {}
+        a = fn.args
+        for x in list(a.posonlyargs) + list(a.args):
+            if x.arg != "self":
+                env[x.arg] = ("ref", x.arg)
+        for x in (a.vararg, a.kwarg):
+            if x is not None:
+                env[x.arg] = DYN
+        self.in_primitive = True
+        try:
+            self.block(fn.body, env)
+        except (Unclassified, NotImplementedError, RecursionError) as e:
+            self.ops.append(("unknown", "_send_scp: %s" % e))
+        finally:
+            self.in_primitive = False
+        return self.ops
+
+    def scan_property(self, name):
+        self.ops, self.deferred, self.stack = [], [], [name]
+        self.cur_kwonly, self.kwarg_name = [], None
+        try:
+            self.block(self.properties[name].body, {})
+        except (Unclassified, NotImplementedError, RecursionError) as e:
+            self.ops.append(("unknown", "%s: %s" % (name, e)))
+        return self.ops
+
+    # -- statements -------------------------------------------------------------------------------------
+    def block(self, stmts, env):
+        """run the statements on `env` (mutated); True if the block always leaves (return / raise / continue / break)"""
+        for st in stmts:
+            if self.stmt(st, env):
+                return True
+        return False
+
+    def join(self, envs, test=None):
+        envs = [e for e in envs if e is not None]
+        if not envs:
+            return None
+        out = {}
+        for k in set().union(*[set(e) for e in envs]):
+            vals = [e.get(k, DYN) for e in envs]
+            if all(v == vals[0] for v in vals):
+                out[k] = vals[0]
+            elif test is not None and len(vals) == 2:
+                out[k] = self.join_isinstance(test, vals[0], vals[1])
+            else:
+                out[k] = DYN
+        return out
+
+    @staticmethod
+    def isinstance_int(t, env):
+        """the parameter `n` if the test is `isinstance(n, int)` and `n` still holds the parameter"""
+        if isinstance(t, ast.Call) and isinstance(t.func, ast.Name) and t.func.id == "isinstance" and len(t.args) == 2 \
+                and isinstance(t.args[0], ast.Name) and env.get(t.args[0].id) == ("ref", t.args[0].id) \
+                and isinstance(t.args[1], ast.Name) and t.args[1].id == "int" and not t.keywords:
+            return t.args[0].id
+        return None
+
+    @staticmethod
+    def join_isinstance(n, a, b):
+        """`if isinstance(n, int): <a> else: <b>` - the two idioms of the BMP commands"""
+        if a == ("list1", ("ref", n)) and b == ("aslist", n):
+            return ("boards", n)            # [board] / list(board)
+        if a == ("ref", n) and b == ("idx0", n):
+            return ("first", n)             # board / list(board)[0]
+        return DYN
+
+    def stmt(self, st, env):
+        if isinstance(st, ast.Expr):
+            self.ev(st.value, env)
+        elif isinstance(st, ast.Assign):
+            v = self.ev(st.value, env)
+            for t in st.targets:
+                self.assign(t, v, env)
+        elif isinstance(st, ast.AnnAssign):
+            v = self.ev(st.value, env) if st.value is not None else DYN
+            self.assign(st.target, v, env)
+        elif isinstance(st, ast.AugAssign):
+            self.ev(st.value, env)
+            self.assign(st.target, DYN, env)
+        elif isinstance(st, ast.Return):
+            if st.value is not None:
+                self.ev(st.value, env)
+            return True
+        elif isinstance(st, ast.Raise):
+            for e in (st.exc, st.cause):
+                if e is not None:
+                    self.ev(e, env)
+            return True
+        elif isinstance(st, (ast.Continue, ast.Break)):
+            return True
+        elif isinstance(st, (ast.Pass, ast.Global, ast.Nonlocal, ast.Import, ast.ImportFrom)):
+            pass
+        elif isinstance(st, ast.Assert):
+            self.ev(st.test, env)
+            if st.msg is not None:
+                self.ev(st.msg, env)
+        elif isinstance(st, ast.Delete):
+            for t in st.targets:
+                self.assign(t, DYN, env)
+        elif isinstance(st, ast.If):
+            self.ev(st.test, env)
+            test = self.isinstance_int(st.test, env)
+            e1, e2 = dict(env), dict(env)
+            d1 = self.block(st.body, e1)
+            d2 = self.block(st.orelse, e2)
+            t = st.test
+            if isinstance(t, ast.Compare) and isinstance(t.left, ast.Name) and len(t.ops) == 1 and isinstance(t.ops[0], ast.Is) \
+                    and isinstance(t.comparators[0], ast.Constant) and t.comparators[0].value is None and not d1 and not d2:
+                n = t.left.id
+                a, b = e1.get(n, DYN), e2.get(n, DYN)
+                if a[0] == "connget" and b[0] == "connget" and b == env.get(n):
+                    e1[n] = e2[n] = ("connget", b[1] + a[1])      # found under the first key, else looked up under the next
+            j = self.join([None if d1 else e1, None if d2 else e2], test)
+            if j is None:
+                return True
+            env.clear()
+            env.update(j)
+        elif isinstance(st, (ast.For, ast.While)):
+            if isinstance(st, ast.For):
+                self.ev(st.iter, env)                 # evaluated once, before the target is bound
+            killed = _stored_names(st.body + st.orelse + ([st.target] if isinstance(st, ast.For) else []))
+            for k in killed:
+                env[k] = DYN
+            if isinstance(st, ast.While):
+                self.ev(st.test, env)
+            e1 = dict(env)
+            self.block(st.body, e1)
+            e2 = dict(env)
+            self.block(st.orelse, e2)
+            j = self.join([env, e1, e2])
+            env.clear()
+            env.update(j)
+        elif isinstance(st, ast.Try):
+            killed = _stored_names(st.body)
+            e0 = dict(env)
+            d0 = self.block(st.body, e0)
+            outs = []
+            for h in st.handlers:
+                eh = dict(env)
+                for k in killed:
+                    eh[k] = DYN
+                if h.name:
+                    eh[h.name] = DYN
+                if not self.block(h.body, eh):
+                    outs.append(eh)
+            if not d0:
+                if not self.block(st.orelse, e0):
+                    outs.append(e0)
+            j = self.join(outs)
+            if j is None:
+                j = dict(env)
+                for k in _stored_names(st.body + st.orelse + [x for h in st.handlers for x in h.body]):
+                    j[k] = DYN
+                dead = True
+            else:
+                dead = False
+            dfin = self.block(st.finalbody, j)
+            env.clear()
+            env.update(j)
+            return dead or dfin
+        elif isinstance(st, ast.With):
+            for it in st.items:
+                self.ev(it.context_expr, env)
+                if it.optional_vars is not None:
+                    self.assign(it.optional_vars, DYN, env)
+            return self.block(st.body, env)
+        elif isinstance(st, (ast.FunctionDef, ast.ClassDef)):
+            self.defer(st.body if isinstance(st, ast.FunctionDef) else [], env, st)
+            env[st.name] = DYN
+        else:
+            raise Unclassified("statement %s not understood" % type(st).__name__)
+        return False
+
+    def assign(self, target, v, env):
+        if isinstance(target, ast.Name):
+            env[target.id] = v
+        elif isinstance(target, (ast.Tuple, ast.List)):
+            vs = v[1] if v[0] == "tuple" and len(v[1]) == len(target.elts) else [DYN] * len(target.elts)
+            for t, x in zip(target.elts, vs):
+                self.assign(t, x, env)
+        elif isinstance(target, ast.Starred):
+            self.assign(target.value, DYN, env)
+        elif isinstance(target, ast.Subscript):
+            self.ev(target.value, env)
+            self.ev(target.slice, env)
+        elif isinstance(target, ast.Attribute):
+            if not _is_self(target.value):
+                self.ev(target.value, env)
+        else:
+            raise Unclassified("assignment target %s" % type(target).__name__)
+
+    def defer(self, body, env, node):
+        """sends made by a lambda / nested function are not made by the method body itself"""
+        saved, self.ops = self.ops, []
+        inner = dict(env)
+        args = node.args
+        for x in list(args.posonlyargs) + list(args.args) + list(args.kwonlyargs):
+            inner[x.arg] = DYN
+        for x in (args.vararg, args.kwarg):
+            if x is not None:
+                inner[x.arg] = DYN
+        try:
+            if isinstance(node, ast.Lambda):
+                self.ev(node.body, inner)
+            else:
+                self.block(body, inner)
+        finally:
+            self.deferred += self.ops
+            self.ops = saved
+
+    # -- expressions ------------------------------------------------------------------------------------
+    def ev(self, node, env):
+        if node is None:
+            return DYN
+        if isinstance(node, ast.Constant):
+            v = node.value
+            if v is None or isinstance(v, (bool, int, str)):
+                return ("lit", v)
+            return DYN
+        if isinstance(node, ast.Name):
+            return env.get(node.id, DYN)
+        if isinstance(node, ast.Attribute):
+            return self.attribute(node, env)
+        if isinstance(node, ast.Call):
+            return self.call(node, env)
+        if isinstance(node, ast.BinOp):
+            l, r = self.ev(node.left, env), self.ev(node.right, env)
+            if isinstance(node.op, ast.LShift):
+                k = int_of(r)
+                if k is not None and k >= 0:
+                    if int_of(l) is not None:
+                        return ("lit", int_of(l) << k)
+                    return ("bits", [(t, sh + k) for t, sh in bit_terms(l)])
+                if int_of(l) == 1 and r[0] == "ref":
+                    return ("mask", r[1])
+                if int_of(l) == 1 and r[0] == "elem":
+                    return ("maskelem", r[1])
+                return DYN
+            if isinstance(node.op, ast.BitOr):
+                if int_of(l) is not None and int_of(r) is not None:
+                    return ("lit", int_of(l) | int_of(r))
+                return ("bits", bit_terms(l) + bit_terms(r))       # a `dyn` term is a term like any other
+            return DYN
+        if isinstance(node, ast.Subscript):
+            v = self.ev(node.value, env)
+            i = self.ev(node.slice, env)
+            if v[0] == "aslist" and int_of(i) == 0:
+                return ("idx0", v[1])
+            if v[0] == "list1" and int_of(i) == 0:
+                return v[1]
+            if v == ("kwargs",) and i[0] == "lit" and isinstance(i[1], str):
+                return ("ref", i[1]) if i[1] in self.cur_kwonly else DYN
+            return DYN
+        if isinstance(node, ast.List):
+            vs = [self.ev(e, env) for e in node.elts]
+            return ("list1", vs[0]) if len(vs) == 1 and not isinstance(node.elts[0], ast.Starred) else DYN
+        if isinstance(node, ast.Tuple):
+            return ("tuple", [self.ev(e, env) for e in node.elts])
+        if isinstance(node, ast.IfExp):
+            self.ev(node.test, env)
+            a, b = self.ev(node.body, env), self.ev(node.orelse, env)
+            if a == b:
+                return a
+            n = self.isinstance_int(node.test, env)
+            return self.join_isinstance(n, a, b) if n is not None else DYN
+        if isinstance(node, (ast.GeneratorExp, ast.ListComp, ast.SetComp, ast.DictComp)):
+            return self.comprehension(node, env)
+        if isinstance(node, ast.Lambda):
+            self.defer(None, env, node)
+            return DYN
+        if isinstance(node, ast.NamedExpr):
+            v = self.ev(node.value, env)
+            self.assign(node.target, v, env)
+            return v
+        if isinstance(node, ast.Starred):
+            self.ev(node.value, env)
+            return DYN
+        if isinstance(node, (ast.BoolOp, ast.Compare, ast.UnaryOp, ast.JoinedStr, ast.FormattedValue, ast.Dict, ast.Set,
+                             ast.Slice, ast.Await, ast.Yield, ast.YieldFrom)):
+            for c in ast.iter_child_nodes(node):
+                if isinstance(c, ast.expr):
+                    self.ev(c, env)
+            return DYN
+        raise Unclassified("expression %s not understood" % type(node).__name__)
+
+    def comprehension(self, node, env):
+        inner = dict(env)
+        elem = None
+        for i, g in enumerate(node.generators):
+            it = self.ev(g.iter, env if i == 0 else inner)     # the first iterable belongs to the enclosing scope
+            for k in _stored_names([g.target]):
+                inner[k] = DYN
+            if i == 0 and len(node.generators) == 1 and isinstance(g.target, ast.Name) and it[0] in ("boards", "aslist", "list1"):
+                inner[g.target.id] = ("elem", it)
+                elem = it
+            for c in g.ifs:
+                self.ev(c, inner)
+                elem = None
+        if isinstance(node, ast.DictComp):
+            self.ev(node.key, inner)
+            self.ev(node.value, inner)
+            return DYN
+        v = self.ev(node.elt, inner)
+        if elem is not None and v == ("maskelem", elem):
+            return ("maskgen", elem)
+        return DYN
+
+    def attribute(self, node, env):
+        if _is_self(node.value):
+            if node.attr in self.properties:
+                return self.inline_property(node.attr)
+            if node.attr in self.decorated or (node.attr in self.methods and self.sends(node.attr)):
+                # a bound method handed on (`map(self.m, ..)`): how often / with what it is called is not known
+                self.ops.append(("unknown", "bound method self.%s used as a value" % node.attr))
+            return DYN
+        # enumeration member: `SCPCommands.x`, `consts.AllocOperations.y`
+        v = node.value
+        cname = v.id if isinstance(v, ast.Name) else v.attr if isinstance(v, ast.Attribute) else None
+        if cname in self.enums and node.attr in self.enums[cname]:
+            return ("enum", cname, node.attr, self.enums[cname][node.attr])
+        self.ev(node.value, env)
+        return DYN
+
+    _SENDS = {}
+
+    def sends(self, name):
+        """does the undecorated method `name` (transitively, textually) contain a send or a decorated call?"""
+        key = (self.cname, name)
+        if key not in self._memo:
+            self._memo[key] = False
+            fn = self.methods[name]
+            r = False
+            for n in ast.walk(fn):
+                if isinstance(n, ast.Attribute) and _is_self(n.value):
+                    if n.attr in PRIMITIVES or n.attr in self.decorated or n.attr in self.properties or n.attr == "connections":
+                        r = True
+                    elif n.attr in self.methods and n.attr != name and self.sends(n.attr):
+                        r = True
+            self._memo[key] = r
+        return self._memo[key]
+
+    def inline_property(self, name):
+        if name in LAZY_PROPERTIES:
+            self.lazy_used.add(name)
+            return DYN
+        if name in self.stack:
+            raise Unclassified("recursive use of property %s" % name)
+        self.stack.append(name)
+        try:
+            self.block(self.properties[name].body, {})
+        finally:
+            self.stack.pop()
+        return DYN
+
+    def call(self, node, env):
+        f = node.func
+        # ---- self.<something>(...)
+        if isinstance(f, ast.Attribute) and _is_self(f.value):
+            if f.attr == "_send_scp":
+                return self.send(node, env)
+            if f.attr == "_get_connection":
+                avs = [self.ev(a, env) for a in node.args]
+                if len(avs) == 2 and not node.keywords and not any(isinstance(a, ast.Starred) for a in node.args):
+                    return ("conn", avs[0], avs[1])
+                self.ops.append(("unknown", "_get_connection with unusual arguments"))
+                return DYN
+            if f.attr in self.decorated:
+                return self.inner(node, env)
+            if f.attr in self.methods:
+                return self.inline(node, env)
+            # inherited (ContextMixin) or unknown attribute: evaluate the arguments only
+            self.args_only(node, env)
+            return DYN
+        # ---- <connection>.read / write / send_scp
+        if isinstance(f, ast.Attribute) and f.attr in ("read", "write", "send_scp", "send_scp_burst"):
+            recv = self.ev(f.value, env)
+            if recv[0] == "connget":
+                # BMPController._send_scp: the connection looked up under a chain of keys
+                avs = [self.ev(a, env) for a in node.args]
+                if f.attr == "send_scp" and self.in_primitive and len(avs) >= 4 \
+                        and not any(isinstance(a, ast.Starred) for a in node.args[:4]):
+                    self.ops.append(("prim", recv[1], [self.ex(v) for v in avs[1:4]]))
+                else:
+                    self.ops.append(("unknown", "connection.%s not understood" % f.attr))
+                return DYN
+            if recv[0] == "conn":
+                avs = [self.ev(a, env) for a in node.args]
+                for k in node.keywords:
+                    self.ev(k.value, env)
+                starred = any(isinstance(a, ast.Starred) for a in node.args[:5])
+                if f.attr == "send_scp" and self.in_primitive and len(avs) >= 4 \
+                        and not any(isinstance(a, ast.Starred) for a in node.args[:4]) \
+                        and (avs[1], avs[2]) == (recv[1], recv[2]):
+                    self.ops.append(("scp", self.ex(avs[1]), self.ex(avs[2]), self.ex(avs[3]), None))
+                elif f.attr in ("read", "write") and len(avs) >= 5 and not starred and not self.is_bmp:
+                    x, y, p = avs[2], avs[3], avs[4]
+                    if (x, y) == (recv[1], recv[2]):
+                        self.ops.append(("mem", self.ex(x), self.ex(y), self.ex(p)))
+                    else:
+                        self.ops.append(("unknown", "%s on the connection of another chip" % f.attr))
+                else:
+                    self.ops.append(("unknown", "connection.%s not understood" % f.attr))
+                return DYN
+            if any(isinstance(n, ast.Attribute) and n.attr in ("connections", "_get_connection")
+                   for n in ast.walk(f.value)):
+                self.args_only(node, env)
+                self.ops.append(("unknown", "%s on a connection object" % f.attr))
+                return DYN
+            self.args_only(node, env)
+            return DYN
+        # ---- self.connections.get((a, b, c), None)
+        if isinstance(f, ast.Attribute) and f.attr == "get" and isinstance(f.value, ast.Attribute) \
+                and _is_self(f.value.value) and f.value.attr == "connections":
+            avs = [self.ev(a, env) for a in node.args]
+            if avs and avs[0][0] == "tuple" and (len(avs) == 1 or avs[1] == ("lit", None)) and not node.keywords:
+                return ("connget", [[self.ex(v) for v in avs[0][1]]])
+            return DYN
+        # ---- kwargs.pop('name') / kwargs.get('name')
+        if isinstance(f, ast.Attribute) and f.attr in ("pop", "get") and isinstance(f.value, ast.Name) \
+                and env.get(f.value.id) == ("kwargs",):
+            avs = [self.ev(a, env) for a in node.args]
+            if avs and avs[0][0] == "lit" and isinstance(avs[0][1], str) and avs[0][1] in self.cur_kwonly:
+                return ("ref", avs[0][1])
+            return DYN
+        # ---- builtins with a meaning here
+        if isinstance(f, ast.Name) and f.id not in env:
+            avs = [self.ev(a, env) for a in node.args]
+            for k in node.keywords:
+                self.ev(k.value, env)
+            if f.id == "list" and len(avs) == 1 and avs[0][0] == "ref":
+                return ("aslist", avs[0][1])
+            if f.id == "sum" and len(avs) == 1 and avs[0][0] == "maskgen":
+                it = avs[0][1]
+                if it[0] in ("boards", "aslist"):
+                    return ("mask", it[1])
+                if it[0] == "list1" and it[1][0] == "ref":
+                    return ("mask", it[1][1])
+                return DYN
+            if f.id == "int" and len(avs) == 1 and int_of(avs[0]) is not None:
+                return ("lit", int_of(avs[0]))
+            return DYN
+        # ---- anything else
+        if isinstance(f, ast.Attribute):
+            self.ev(f.value, env)
+        else:
+            self.ev(f, env)
+        self.args_only(node, env)
+        return DYN
+
+    def args_only(self, node, env):
+        for a in node.args:
+            self.ev(a, env)
+        for k in node.keywords:
+            self.ev(k.value, env)
+
+    def ex(self, av):
+        if av[0] == "ref":
+            return ("ref", av[1])
+        if av[0] == "lit":
+            return ("lit", av[1])
+        if av[0] == "enum":
+            return ("lit", av[3])
+        if av[0] in ("mask", "first"):
+            return (av[0], av[1])
+        return ("dyn",)
+
+    def send(self, node, env):
+        """`self._send_scp(a, b, c, cmd, arg1, arg2, ...)`"""
+        avs = [self.ev(a, env) for a in node.args]
+        kws = {}
+        for k in node.keywords:
+            v = self.ev(k.value, env)
+            if k.arg is not None:
+                kws[k.arg] = v
+        star = [i for i, a in enumerate(node.args) if isinstance(a, ast.Starred)]
+        if len(avs) < 3 or (star and star[0] < 3):
+            self.ops.append(("unknown", "_send_scp: destination arguments not positional"))
+            return DYN
+        a, b, c = self.ex(avs[0]), self.ex(avs[1]), self.ex(avs[2])
+
+        def arg(i, name):
+            if len(avs) > i and not (star and star[0] <= i):
+                return avs[i]
+            if star and star[0] <= i:
+                return DYN
+            return kws.get(name, ("lit", 0))
+        if star and star[0] == 3:
+            extra = None                   # pass-through (`send_scp`): the command is the caller's
+        else:
+            cmd = arg(3, "cmd")
+            if cmd[0] != "enum" or cmd[1] != "SCPCommands":
+                self.ops.append(("unknown", "_send_scp: command not an SCPCommands member"))
+                return DYN
+            extra = self.extra_of(cmd[2], arg(4, "arg1"), arg(5, "arg2"))
+        self.ops.append(("bmp" if self.is_bmp else "scp", a, b, c, extra))
+        return DYN
+
+    def field(self, av, lo, width):
+        """the bit field [lo, lo+width) of an OR of shifted terms, as an Ex (each shifted term is taken to fit below the
+        next one: the packing the source writes); None = cannot tell"""
+        hits, const = [], 0
+        for t, sh in bit_terms(av):
+            k = int_of(t)
+            if k is not None:
+                const |= ((k << sh) >> lo) & ((1 << width) - 1) if width else (k << sh) >> lo
+            elif sh == lo:
+                hits.append(t)
+            elif sh > lo and (width == 0 or sh < lo + width):
+                return None
+            elif sh < lo:
+                continue
+        if len(hits) == 1 and const == 0:
+            return self.ex(hits[0])
+        if not hits:
+            return ("lit", const)
+        return None
+
+    def extra_of(self, cmd, a1, a2):
+        """the application id (MachineController) / board mask (BMPController) the command carries: mirrors the model's
+        `appOf` / `maskOf`, which read it back from the datagram"""
+        E = self.enums
+        dyn = ("dyn",)
+        if self.is_bmp:
+            return (self.ex(a2) if a2 != DYN else dyn) if cmd in ("power", "led") else None
+        if cmd == "alloc_free":
+            op = self.field(a1, 0, 8)
+            if op is None or op[0] != "lit":
+                return dyn
+            if op[1] in (E["AllocOperations"]["alloc_sdram"], E["AllocOperations"]["alloc_rtr"], E["AllocOperations"]["free_rtr_by_app"]):
+                return self.field(a1, 8, 0) or dyn
+            return None
+        if cmd == "router":
+            op = self.field(a1, 0, 8)
+            if op is None or op[0] != "lit":
+                return dyn
+            return (self.field(a1, 8, 8) or dyn) if op[1] == E["RouterOperations"]["load"] else None
+        if cmd == "signal":
+            return self.field(a2, 0, 8) or dyn
+        if cmd == "nearest_neighbour_packet":
+            c = self.field(a1, 24, 0)
+            if c is None or c[0] != "lit":
+                return dyn
+            return (self.field(a2, 24, 0) or dyn) if c[1] == E["NNCommands"]["flood_fill_end"] else None
+        return None
+
+    def inner(self, node, env):
+        """`self.m(*pos, **kw)` with `m` decorated"""
+        f = node.func
+        pos, kw, bad = [], [], False
+        for a in node.args:
+            v = self.ev(a, env)
+            bad = bad or isinstance(a, ast.Starred)
+            pos.append(self.ex(v))
+        for k in node.keywords:
+            v = self.ev(k.value, env)
+            bad = bad or k.arg is None
+            kw.append((k.arg, self.ex(v)))
+        if bad:
+            self.ops.append(("unknown", "call of %s with * / ** arguments" % f.attr))
+        else:
+            self.ops.append(("call", f.attr, pos, kw))
+        return DYN
+
+    def inline(self, node, env):
+        """`self.helper(..)`, helper undecorated: its body is scanned with the parameters bound to the arguments"""
+        name = node.func.attr
+        avs = [self.ev(a, env) for a in node.args]
+        kws = [(k.arg, self.ev(k.value, env)) for k in node.keywords]
+        if not self.sends(name):
+            return DYN
+        if name in self.stack or len(self.stack) > 6:
+            self.ops.append(("unknown", "recursive helper %s" % name))
+            return DYN
+        fn = self.methods[name]
+        a = fn.args
+        params = [x.arg for x in list(a.posonlyargs) + list(a.args)][1:]
+        if any(isinstance(x, ast.Starred) for x in node.args) or any(k is None for k, _ in kws) or len(avs) > len(params):
+            self.ops.append(("unknown", "helper %s called with * / ** arguments" % name))
+            return DYN
+        inner = {}
+        defaults = [None] * (len(params) - len(a.defaults)) + list(a.defaults)
+        for pn, d in zip(params, defaults):
+            inner[pn] = self.ev(d, {}) if d is not None else DYN
+        for pn, v in zip(params, avs):
+            inner[pn] = v
+        for k, v in kws:
+            inner[k] = v
+        for x in (a.vararg, a.kwarg):
+            if x is not None:
+                inner[x.arg] = DYN
+        self.stack.append(name)
+        saved = (self.cur_kwonly, self.kwarg_name)
+        self.cur_kwonly, self.kwarg_name = [], None
+        try:
+            self.block(fn.body, inner)
+        finally:
+            self.stack.pop()
+            self.cur_kwonly, self.kwarg_name = saved
+        return DYN
+
+
+BodyScanner._memo = {}
+
+
+def read_enums(repo):
+    tree = ast.parse(read_source(repo, "rig/machine_control/consts.py"))
+    out = {}
+    for n in tree.body:
+        if isinstance(n, ast.ClassDef):
+            vals = {}
+            for st in n.body:
+                if isinstance(st, ast.Assign) and len(st.targets) == 1 and isinstance(st.targets[0], ast.Name):
+                    try:
+                        v = ast.literal_eval(st.value)
+                    except Exception:
+                        continue
+                    if isinstance(v, int) and not isinstance(v, bool):
+                        vals[st.targets[0].id] = v
+            if vals:
+                out[n.name] = vals
+    return out
+
+
+PRIMS = {}
+
+
+def read_bodies(repo):
+    """{(cls, name): {"ops": [...], "deferred": [...]}} for every decorated method, plus {"lazy": {cls: ops}}"""
+    sigs = read_signatures(repo)
+    enums = read_enums(repo)
+    BodyScanner._memo = {}
+    out, lazy = {}, {}
+    for rel, cname in CLASSES:
+        with warnings.catch_warnings():
+            warnings.simplefilter("ignore")
+            tree = ast.parse(read_source(repo, rel))
+        cls = [n for n in tree.body if isinstance(n, ast.ClassDef) and n.name == cname][0]
+        mine = [g for g in sigs if g["cls"] == cname]
+        sc = BodyScanner(cname, cls, {g["name"] for g in mine},
+                         {g["name"]: [k for k, _ in g["kwOnly"]] for g in mine}, enums)
+        for g in mine:
+            ops, deferred = sc.scan(g["name"])
+            out[(cname, g["name"])] = {"ops": ops, "deferred": deferred}
+        lazy[cname] = {p: sc.scan_property(p) for p in sorted(sc.lazy_used)}
+        PRIMS[cname] = sc.scan_primitive()
+    return out, lazy
+
+
+def lean_ex(e):
+    if e is None:
+        return "none"
+    k = e[0]
+    if k == "ref":
+        return "(.ref %s)" % lean_str(e[1])
+    if k == "lit":
+        return "(.lit (%s))" % val_of_py(e[1])[1]
+    if k in ("mask", "first"):
+        return "(.%s %s)" % (k, lean_str(e[1]))
+    return ".dyn"
+
+
+def lean_opt_ex(e):
+    return "none" if e is None else "(some %s)" % lean_ex(e)
+
+
+def lean_op(op):
+    k = op[0]
+    if k in ("scp", "bmp"):
+        return ".%s %s %s %s %s" % (k, lean_ex(op[1]), lean_ex(op[2]), lean_ex(op[3]), lean_opt_ex(op[4]))
+    if k == "mem":
+        return ".mem %s %s %s" % (lean_ex(op[1]), lean_ex(op[2]), lean_ex(op[3]))
+    if k == "call":
+        return ".call %s %s %s" % (lean_str(op[1]), lean_list(op[2], lean_ex),
+                                   lean_list(op[3], lambda kv: "(%s, %s)" % (lean_str(kv[0]), lean_ex(kv[1]))))
+    return ".unknown %s" % lean_str(op[1])
+
+
+def gen_bodies(repo):
+    bodies, lazy = read_bodies(repo)
+    s = HEADER + ("-- per-method wire rules EXTRACTED from the source by harness/gen/c18.py (abstract interpretation of the\n"
+                  "-- method bodies): sends and inner decorated calls in source order, helpers and properties inlined.\n"
+                  "import RigModel.Model.C18Types\nnamespace Rig.Gen.C18Bodies\nopen Rig.C18\n\n")
+    for short, cname in (("Mc", "MachineController"), ("Bmp", "BMPController")):
+        for table, key in (("gen%s" % short, "ops"), ("deferred%s" % short, "deferred")):
+            s += "def %s : String → List Op\n" % table
+            for (c, name), b in bodies.items():
+                if c == cname and (b[key] or key == "ops"):
+                    s += "  | %s =>\n    [%s]\n" % (lean_str(name), ",\n     ".join(lean_op(o) for o in b[key]))
+            s += "  | _ => []\n\n"
+    s += ("def genBody (cls m : String) : List Op :=\n"
+          "  if cls = \"MachineController\" then genMc m else if cls = \"BMPController\" then genBmp m else []\n\n"
+          "/-- sends made by lambdas / nested functions the method creates (run later, not by the method body) -/\n"
+          "def genDeferred (cls m : String) : List Op :=\n"
+          "  if cls = \"MachineController\" then deferredMc m else if cls = \"BMPController\" then deferredBmp m else []\n\n")
+    s += "/-- the methods scanned -/\ndef scanned : List (String × String) :=\n  %s\n\n" % lean_list(
+        list(bodies), lambda k: "(%s, %s)" % (lean_str(k[0]), lean_str(k[1])))
+    s += "/-- the lazily issued probes of the cached properties left out of the rules: (class, property, sends) -/\n"
+    s += "def genLazy : List (String × String × List Op) :=\n  %s\n\n" % lean_list(
+        [(c, p, ops) for c, d in lazy.items() for p, ops in d.items()],
+        lambda t: "(%s, %s, [%s])" % (lean_str(t[0]), lean_str(t[1]), ", ".join(lean_op(o) for o in t[2])))
+    # the primitives themselves
+    mc, bmp = PRIMS["MachineController"], PRIMS["BMPController"]
+    s += ("/-- `MachineController._send_scp(x, y, p, ..)`: what it hands to the connection of `_get_connection(x, y)` -/\n"
+          "def genMcSend : List Op :=\n  [%s]\n\n" % ", ".join(lean_op(o) for o in mc))
+    ok = len(bmp) == 1 and bmp[0][0] == "prim"
+    s += ("/-- `BMPController._send_scp(cabinet, frame, board, ..)`: the keys it looks a connection up under, in order -/\n"
+          "def genBmpKeys : List (List Ex) :=\n  %s\n\n" % lean_list(bmp[0][1] if ok else [], lambda k: lean_list(k, lean_ex)))
+    s += ("/-- ... and the (x, y, p) it hands to that connection -/\n"
+          "def genBmpDest : List Ex :=\n  %s\n\n" % lean_list(bmp[0][2] if ok else [], lean_ex))
+    s += "def genBmpSendOk : Bool := %s\n\n" % ("true" if ok else "false")
+    s += "end Rig.Gen.C18Bodies\n"
+    return s, len(bodies) + 2
+
+
+GENERATORS = {"Signatures": gen_signatures, "C18Consts": gen_consts, "C18Bodies": gen_bodies}
